@@ -53,20 +53,42 @@
 (*              in MEMORY order first (np.ravel(gv, order="K").reshape(    *)
 (*              n,3)) - a documented wrong alternative, used only by       *)
 (*              configuration _ravelK which MUST violate BestGrain         *)
-(* variables  tab (the logical error table = what the reference computes), *)
-(*            glay ulay build prep (chosen at Init, never changed), and    *)
+(*            NFKinds  the kinds of NON-FINITE peaks enumerated ({}: none) *)
+(*              a peak whose g-vector holds nan_one (NaN in one component),*)
+(*              nan_all, pinf_one (+inf in one), ninf_one (-inf in one),   *)
+(*              inf_all (+-inf in every component) - a NaN position in a   *)
+(*              peak file, a NaN gx/gy/gz column, a division by zero       *)
+(*              upstream.  h = UBI.g mixes every component of g into every *)
+(*              component of h (0 * nan = nan, 0 * inf = nan, inf - inf =  *)
+(*              nan), so such a peak has NO hkl error below the tolerance  *)
+(*              for any UBI: by the statement it is indexed by no grain -  *)
+(*              the logical table holds E on every row (Logical), whatever *)
+(*              its finite components (tab) would score; the kernel's      *)
+(*              `sumsq < tolsq` is false for a NaN sumsq (Seen = E).       *)
+(*              Which component a _one kind sits in is immaterial here;    *)
+(*              the harness rotates it with the peak's position.  Integer  *)
+(*              item types cannot hold such a value, and assigntorings()   *)
+(*              raises ValueError on it (no assignment is made: outside    *)
+(*              the statement), so non-finite peaks are enumerated with    *)
+(*              floating layouts and prep = direct only.  A configuration  *)
+(*              with NFKinds # {} enumerates only behaviours with at least *)
+(*              one non-finite peak (the all-finite ones are _lay's).      *)
+(* variables  tab (the error table of the peaks' finite components), nf    *)
+(*            (per peak "fin" or a kind in NFKinds), glay ulay build prep  *)
+(*            (all chosen at Init, never changed), and                     *)
 (*            ScoreAssign's order lab0 dr0 labels drlv2 call pend nret     *)
 (*            rets snaps; ScoreAssign's `err` is instantiated TWICE:       *)
 (*              Kern = ScoreAssign WITH err <- Seen   (what the kernel     *)
 (*                     reads through the memory map: the actions)          *)
-(*              Prop = ScoreAssign WITH err <- tab    (the logical array:  *)
-(*                     the property's invariants)                          *)
+(*              Prop = ScoreAssign WITH err <- Logical (the logical array: *)
+(*                     tab, E on every row of a non-finite peak: what the  *)
+(*                     reference computes; the property's invariants)      *)
 (* actions    Kern!Call, Kern!TakeP, Kern!ReleaseP, Kern!LeaveP,           *)
 (*            Kern!Return                                                  *)
 (* checked    Prop!ClosedForm, Counts, Represent, BestGrain, Unassigned,   *)
 (*            StoredError, ReturnedCounts, Histogram, Sane,                *)
 (*            OrderIndependent: the outcome is that of the LOGICAL array   *)
-(*            for every layout x build x prep; LayoutBlind: Seen = tab     *)
+(*            for every layout x build x prep; LayoutBlind: Seen = Logical *)
 (* bounds     _lay    G=R=2 K=1 N=2 (single calls, fresh passes in both    *)
 (*                    orders, a label presented twice), labels buffer      *)
 (*                    -1 / 0 / 1 / 2, all 16 tables, 108 layout            *)
@@ -75,6 +97,13 @@
 (*                    with C / F g-vectors                                 *)
 (*            _ravelK G=R=2 K=2 N=0, Flatten = "ravelK": TLC must report   *)
 (*                    BestGrain violated (held layout F)                   *)
+(*            _nf     G=R=2 K=1 N=2, labels buffer -1 / 0 / 1 / 2, all 16  *)
+(*                    tables x the 5 non-finite kinds x 23 combinations    *)
+(*                    (C, F, cols2, f32, be g-vectors x every build,       *)
+(*                    direct; C / F UBIs): a non-finite peak is never      *)
+(*                    taken, is released when the buffer held the          *)
+(*                    presented label, keeps a foreign value, is not       *)
+(*                    counted, its stored error stays what it was          *)
 (*            every finished behaviour is emitted with its layout tags and *)
 (*            realised by harness/props/c07.py as real numpy arrays with   *)
 (*            that address map / item type on every caller route           *)
@@ -82,12 +111,13 @@
 EXTENDS Integers, Sequences, FiniteSets, TLC, Json
 
 CONSTANTS G, R, K, E, N, LInitU, LInitNN, DInit, EmitOn,
-          GvLayouts, UbiLayouts, Builds, Preps, Flatten
+          GvLayouts, UbiLayouts, Builds, Preps, Flatten, NFKinds
 ASSUME R <= 3 /\ Flatten \in {"wrapper", "ravelK"}
+ASSUME NFKinds \subseteq {"nan_one", "nan_all", "pinf_one", "ninf_one", "inf_all"}
 
-VARIABLES tab, glay, ulay, build, prep,
+VARIABLES tab, nf, glay, ulay, build, prep,
           order, lab0, dr0, labels, drlv2, call, pend, nret, rets, snaps
-lay == <<tab, glay, ulay, build, prep>>
+lay == <<tab, nf, glay, ulay, build, prep>>
 vars == <<lay, order, lab0, dr0, labels, drlv2, call, pend, nret, rets, snaps>>
 
 Rows == 1..R
@@ -119,13 +149,22 @@ KAddr(l, kc) == IF l = "rev" THEN Addr("C", kc[1], kc[2]) ELSE Addr(l, kc[1], kc
 MemCell(l, i) == CHOOSE kc \in Cells : Cardinality({x \in Cells : KAddr(l, x) < KAddr(l, kc)}) = i
 Item(i) == IF Flatten = "wrapper" THEN <<(i \div 3) + 1, (i % 3) + 1>>
            ELSE MemCell(HeldLayout(build, prep, glay), i)
-Seen == [r \in Rows |-> [k \in Peaks |-> Comp(Item(3 * (k - 1) + (r - 1)))]]
+\* a peak of which the kernel reads a cell of a non-finite logical peak scores NaN on every row: never below the cut
+NonFin(k) == nf[k] # "fin"
+IntLayouts == {"i64", "i32F"}
+SeenNF(k) == \E c \in 0..2 : NonFin(Item(3 * (k - 1) + c)[1])
+Seen == [r \in Rows |-> [k \in Peaks |-> IF SeenNF(k) THEN E ELSE Comp(Item(3 * (k - 1) + (r - 1)))]]
+\* what the reference computes: a non-finite peak is indexed by no grain
+Logical == [r \in Rows |-> [k \in Peaks |-> IF NonFin(k) THEN E ELSE tab[r][k]]]
 
 Kern == INSTANCE ScoreAssign WITH err <- Seen
-Prop == INSTANCE ScoreAssign WITH err <- tab
+Prop == INSTANCE ScoreAssign WITH err <- Logical
 
 Init == /\ tab \in [Rows -> [Peaks -> 0..E]]
+        /\ nf \in [Peaks -> {"fin"} \cup NFKinds]
+        /\ NFKinds # {} => \E k \in Peaks : NonFin(k)
         /\ \E c \in Combos : glay = c[1] /\ ulay = c[2] /\ build = c[3] /\ prep = c[4]
+        /\ (\E k \in Peaks : NonFin(k)) => (glay \notin IntLayouts /\ prep = "direct")
         /\ order \in Prop!Orders
         /\ lab0 \in [Peaks -> Prop!LInit]
         /\ dr0 \in [Peaks -> DInit]
@@ -134,7 +173,7 @@ Init == /\ tab \in [Rows -> [Peaks -> 0..E]]
 Next == UNCHANGED lay /\ Kern!Next
 Spec == Init /\ [][Next]_vars
 
-LayoutBlind == Seen = tab
+LayoutBlind == Seen = Logical
 ClosedForm == Prop!ClosedForm
 Counts == Prop!Counts
 Represent == Prop!Represent
@@ -150,5 +189,5 @@ Emit == (Prop!Finished /\ EmitOn) =>
    PrintT("@@" \o ToJson([err |-> tab, order |-> order, lab0 |-> lab0, dr0 |-> dr0, labels |-> labels, drlv2 |-> drlv2,
                           rets |-> rets, snaps |-> snaps, noties |-> IF Prop!NoTies THEN 1 ELSE 0,
                           pass |-> IF Prop!SinglePass /\ Prop!Fresh THEN 1 ELSE 0,
-                          glay |-> glay, ulay |-> ulay, build |-> build, prep |-> prep]))
+                          glay |-> glay, ulay |-> ulay, build |-> build, prep |-> prep, nf |-> nf]))
 =============================================================================
